@@ -43,6 +43,7 @@ def required(tier):
         "message.not_eof": 5000,
         "rendered": 10000,
         "lr.disambiguation_errors_located": 200,
+        "config.newline_is_not_layout": 50,
     }
 
 
@@ -78,22 +79,27 @@ def run(ctx):
         lmon.uninstall()
 
 
-def build_parsers(text):
+def skip_blank(s, p):
+    return cfg.skip_ws(s, p, " \t")
+
+
+def build_parsers(text, ws=None):
     out = []
+    wskw = {} if ws is None else {"ws": ws}
     for tables in ("LALR", "SLR"):
         tb = pgx.LALR if tables == "LALR" else pgx.SLR
         try:
-            out.append(("GLR-" + tables, "glr", pgx.glr(pgx.grammar(text), tables=tb)))
+            out.append(("GLR-" + tables, "glr", pgx.glr(pgx.grammar(text), tables=tb, **wskw)))
         except Exception:  # noqa: BLE001
             pass
         try:
-            p = pgx.lr(pgx.grammar(text), tables=tb, prefer_shifts=False, prefer_shifts_over_empty=False)
+            p = pgx.lr(pgx.grammar(text), tables=tb, prefer_shifts=False, prefer_shifts_over_empty=False, **wskw)
             det = all(len(a) == 1 for s in p.table.states for a in s.actions.values())
             out.append(("LR-%s-off" % tables, "lrdet" if det else "lrres", p))
         except Exception:  # noqa: BLE001
             pass
         try:
-            p = pgx.lr(pgx.grammar(text), tables=tb)
+            p = pgx.lr(pgx.grammar(text), tables=tb, **wskw)
             out.append(("LR-%s-default" % tables, "lrres", p))
         except Exception:  # noqa: BLE001
             pass
@@ -102,15 +108,20 @@ def build_parsers(text):
 
 def one_grammar(ctx, gmon, g, alphabet, maxlen):
     text = g.text(inline=ctx.rng.random() < 0.3)
+    # a quarter of the grammars run with ws=" \t": newlines are then not layout, so errors land on them
+    blank_only = ctx.rng.random() < 0.25
+    skip = skip_blank if blank_only else cfg.skip_ws
+    if blank_only:
+        ctx.count("config.newline_is_not_layout")
     try:
         with pgx.watchdog(30):
-            parsers = build_parsers(text)
+            parsers = build_parsers(text, " \t" if blank_only else None)
     except pgx.CaseTimeout:
         ctx.inconc("construction timeout %r" % text)
         return
     if len(alphabet) >= 3 and maxlen > 4:
         maxlen = 4
-    case0 = {"grammar": text, "g": g.to_json()}
+    case0 = {"grammar": text, "g": g.to_json(), "blank_only": blank_only}
     for w in cfg.all_strings(alphabet, maxlen):
         r = ctx.rng.random()
         if r < 0.45:
@@ -119,7 +130,7 @@ def one_grammar(ctx, gmon, g, alphabet, maxlen):
             inp = w + ctx.rng.choice([" ", "\n", " \n"])
         else:
             inp = w
-        e = cfg.Earley(g, inp)
+        e = cfg.Earley(g, inp, skip=skip)
         if e.accepted:
             continue
         if not inp:
@@ -340,9 +351,10 @@ def replay(case, ctx):
     lmon = LRMonitor()
     lmon.install()
     try:
-        for name, kind, parser in build_parsers(case["grammar"]):
+        bo = case.get("blank_only", False)
+        for name, kind, parser in build_parsers(case["grammar"], " \t" if bo else None):
             if name == case["config"]:
-                check(ctx, gmon, g, case, name, kind, parser, case["input"], cfg.Earley(g, case["input"]))
+                check(ctx, gmon, g, case, name, kind, parser, case["input"], cfg.Earley(g, case["input"], skip=skip_blank if bo else cfg.skip_ws))
     finally:
         gmon.uninstall()
         lmon.uninstall()
